@@ -13,3 +13,7 @@ claim("C02",
 claim("C03",
       "Decides structural clauses on the decode scope D (computed per run from the gated call graph): every signed length read from the wire is sign-checked on all paths before any size/skip/bound use (interprocedural taint, dominance-by-edge sanitizers); every wire.Type dispatch in D is exhaustive with an error default; ReadBool accepts only 0/1; every loop is counted or input-consuming; every recursive cycle consumes input or is structural; a ledger of every potentially panicking SSA instruction in D, each discharged by a verified class; Skip consumes per wire type the same width sequence as ReadValue (fixedWidth table, header layouts, counted loops). Does NOT decide totality over all byte strings as such, stack depth on deep nesting, or prefix re-encoding equality.",
       TRUST + "; io.Reader contract 0<=n<=len(p)", "taint/dominance over SSA, loop and recursion certificates, panic-site ledger, sequence comparison", "DESIGN.md section 4 C03")
+
+claim("C12",
+      "Decides structural clauses only: strict and legacy envelope header layouts of both writers and both readers equal the frozen Thrift rows and share the version constant/mask; DecodeRequest and ReadRequest have identical (framing test => responder) arms equal to the frozen three-way classification, check the envelope type before succeeding and build responders whose Name/SeqID come from the decoded envelope; every responder re-wraps with its own framing echoing Name/SeqID; the envelope server mirrors name/seqid; no raw io.Reader.Read in protocol/binary (segmentation independence); borrowed stream readers/writers are released on all exits. Does NOT decide round-trip equality of names/bodies or multiplexing.",
+      TRUST, "symbolic success-path traces over SSA compared between sibling functions and with a frozen table; who-may-call rule with witness; pairing on all exits", "DESIGN.md section 4 C12")
